@@ -811,7 +811,9 @@ Definition read_ok (x : mres * option grid) : Prop :=
   | (RShape s, Some g) => s = data_shape g
   | (RSize n, Some g) => n = data_size g
   | (RPoints p, Some g) => p = data_points g
-  | (RShape _, None) | (RSize _, None) | (RPoints _, None) => False
+  | (RQ p m, Some g) => m = prop_q p g
+  | (RN p m, Some g) => m = prop_n p g
+  | (RShape _, None) | (RSize _, None) | (RPoints _, None) | (RQ _ _, None) | (RN _ _, None) => False
   | _ => True
   end.
 
@@ -830,7 +832,7 @@ Qed.
 
 Lemma mstep_ok st o :
   Forall memo_ok st ->
-  let k := match o with MShape k | MSize k | MPoints k | MSet k _ | MCopy k => k end in
+  let k := match o with MShape k | MSize k | MPoints k | MProp _ k | MSet k _ | MCopy k => k end in
   Forall memo_ok (fst (mstep true st o)) /\
   read_ok (snd (mstep true st o), option_map r_g (nth_error (fst (mstep true st o)) k)).
 Proof.
@@ -840,7 +842,7 @@ Proof.
   assert (Hr : memo_ok r).
   { rewrite Forall_forall in Hinv. apply Hinv. eapply nth_error_In. exact Er. }
   destruct Hr as [Hs Hz].
-  destruct o as [k0|k0|k0|k0 pts|k0]; simpl in k; subst k.
+  destruct o as [k0|k0|k0|p k0|k0 pts|k0]; simpl in k; subst k.
   - assert (E : match r_shape r with Some s => s | None => data_shape (r_g r) end = data_shape (r_g r)).
     { destruct Hs as [-> | ->]; reflexivity. }
     rewrite E. simpl. split.
@@ -855,6 +857,7 @@ Proof.
       * apply Forall_upd; [exact Hinv|]. split; simpl; auto.
       * rewrite (nth_error_upd st k0 r _ Er). simpl. reflexivity.
   - simpl. split; [exact Hinv|]. rewrite Er. simpl. reflexivity.
+  - simpl. split; [exact Hinv|]. rewrite Er. destruct (p <? 5); simpl; reflexivity.
   - destruct (pts && g_esri (r_g r)); simpl.
     + split; [exact Hinv|]. first [exact I | match goal with |- read_ok (_, option_map _ ?e) => destruct e end; exact I].
     + split.
